@@ -255,6 +255,10 @@ def check(ctx, run):
     run.ob("R3", "no unknown tags", conv.site, not extra, witness=extra)
 
     # ---------------- R4 ----------------------------------------------------
+    # the C getters (hasReturnValue_c and the *OrDefault family) ask the C++ support about "the current call": that is the
+    # call just made only if actualCall retires the previous one on every route (shared with C08.R11)
+    from .C08 import actualcall_routing_rule
+    actualcall_routing_rule(prog, run, "R4")
     f = prog.fn("MockCFunctionComparatorNode::isEqual")
     run.analysed(f)
     pn = [p["name"] for p in f.params]
